@@ -46,6 +46,7 @@ func c18Menu(thorough bool) []enga.ABlock {
 		ev(enga.Event{Kind: "req:withdraw", N: 2}, enga.Event{Kind: "req:withdraw", N: 1, Var: "bad-address"}),
 		ev(enga.Event{Kind: "tx:process", N: 1}),
 		ev(enga.Event{Kind: "req:cancel"}),
+		ev(enga.Event{Kind: "tx:approve", Var: "reversed"}), // refunds queued in an order that is not the order of their ids
 		ev(enga.Event{Kind: "tx:hashes", N: 2}),
 		ev(enga.Event{Kind: "tx:deposits", N: 9}),
 		ev(enga.Event{Kind: "req:params", Var: "rate-20-cap-1000"}),
@@ -382,12 +383,24 @@ func c18Roots(thorough bool) []c18Root {
 	}
 	flightSetup := []enga.ABlock{ev(enga.Event{Kind: "req:withdraw", N: 3}), ev(enga.Event{Kind: "tx:process", N: 1}), ev(enga.Event{Kind: "tx:process", N: 1})}
 	return []c18Root{{Name: "general", Cfg: c18Cfg, Menu: c18Menu(thorough)}, {Name: "relayer-group-of-4", Cfg: c18GroupCfg, Menu: group},
-		{Name: "two-batches-in-flight", Cfg: c18Cfg, Menu: flight, Setup: flightSetup}}
+		{Name: "two-batches-in-flight", Cfg: c18Cfg, Menu: flight, Setup: flightSetup},
+		// a member of the set that was jailed for downtime once, served its term and came back: the
+		// record keeps the end of that term for good
+		{Name: "validator-that-served-a-jail-term", Cfg: c18JailedOnceCfg, Menu: []enga.ABlock{{}, {Absent: []int{1}}, ev(enga.Event{Kind: "req:lock", N: 1}), ev(enga.Event{Kind: "req:claim", N: 1}), {Dt: 7}}}}
+}
+
+func c18JailedOnceCfg() *sim.GenesisCfg {
+	g := c18Cfg()
+	g.Vals[1].JailedUntil = g.Time.Add(-time.Hour)
+	return g
 }
 
 func c18RootCfg(name string) *sim.GenesisCfg {
 	if name == "relayer-group-of-4" {
 		return c18GroupCfg()
+	}
+	if name == "validator-that-served-a-jail-term" {
+		return c18JailedOnceCfg()
 	}
 	return c18Cfg()
 }
